@@ -268,7 +268,7 @@ PROPS["C09"] = {
                   "names up to 12 (quick) / 26 (thorough) characters, listings of 2 / 3 siblings; the directory scan (ReadDir) itself is summarised",
     "assumptions": L2_ASSUME + ["rename(2) is atomic", "the directory listing returned by read_dir contains every sibling"],
     "e2": [E("is_num_backup", "p_backup", "lemma_is_num_backup"), E("next_backup_num", "p_backup", "lemma_next_backup_num"),
-           E("has_backup", "p_backup", "lemma_has_backup"), E("backup_path", "p_backup", "lemma_backup_path"),
+           E("has_backup", "p_backup", "lemma_has_backup"), E("backup_path", "p_backup", "lemma_backup_path"), E("ls_file_dir", "p_backup", "lemma_ls_file_dir"),
            E("handle_new", "p_handle", "lemma_handle_new")],
 }
 
